@@ -157,6 +157,12 @@ func (d *badgerNodeDB) cleanMultipartLocked(removeNodes bool) error {
 
 	metaTx := d.db.NewTransactionAt(tsMetadata, true)
 	defer metaTx.Discard()
+	if removeNodes {
+		// Release the sequence numbers reserved for the aborted restore so that a later restore
+		// into the same version starts from zero again. Chunk batches do not record updated
+		// nodes, so a restore at a non-zero sequence number cannot be finalized correctly.
+		d.meta.releaseRootSeqNos(version, seqs)
+	}
 	d.meta.setMultipart(0, nil)
 	d.meta.commit(metaTx)
 
